@@ -817,3 +817,29 @@ package sam
 //@   before return#6: assert [c18.error.first] len(recvd(cErr)) == 1 && err == recvd(cErr)[0]
 //@   before return#7: assert [c18.nil.means.clean] len(recvd(cErr)) == 0 && len(recvd(cReadDone)) == 1 && len(recvd(cWaitGroupDone)) == 1 && len(recvd(cWriteDone)) == 1
 //@   ensures [local.c18.error.returned] implies(gErrSeen, result != nil)
+
+//@ # C02/C12 (worker of sam toPairAlign / sam variants): one pair per group of records, carrying the group's input index and
+//@ # the first record's name; every record's rows come from getOneLinePlusRef on THAT record, the reference and the
+//@ # insertion mode given; with insertions the rows, CIGARs and positions handed to blockToSeqPair are those of the group's
+//@ # records in order; without insertions the pair's reference row is the reference itself.
+//@ func blockToPairwiseAlignment
+//@   modifies everything
+//@   requires forall(t, 0, len(recv(cSR)), len(recv(cSR)[t].records) >= 1)
+//@   requires forall(t, 0, len(recv(cSR)), forall(r, 0, len(recv(cSR)[t].records), recv(cSR)[t].records[r].Pos >= 0 && validCigar(recv(cSR)[t].records[r].Cigar) && recv(cSR)[t].records[r].Pos <= len(ref) && cigarFitsQ(recv(cSR)[t].records[r].Cigar, recv(cSR)[t].records[r].Seq.Length) && cigarFitsR(recv(cSR)[t].records[r].Cigar, recv(cSR)[t].records[r].Pos, len(ref))))
+//@   loop 1:
+//@     writes everything
+//@     invariant len(sent(cPair)) == range_i
+//@     invariant forall(t, 0, range_i, sent(cPair)[t].idx == recv(cSR)[t].idx && sent(cPair)[t].queryname == recv(cSR)[t].records[0].Name)
+//@   loop 2:
+//@     writes everything
+//@     invariant len(sent(cPair)) == range_i1 && len(seqs) == range_i && len(cigars) == range_i && len(positions) == range_i
+//@     invariant forall(k, 0, range_i, seqs[k].queryname == group.records[k].Name && len(seqs[k].ref) == len(seqs[k].query) && positions[k] == group.records[k].Pos && positions[k] >= 0)
+//@   loop 3:
+//@     writes everything
+//@     invariant len(sent(cPair)) == range_i1 && len(Q) == range_i
+//@   before call:getOneLinePlusRef#1: assert [c02.record.rows] arg(0) == line && sameslice(arg(1), ref) && arg(2) == true && !omitIns
+//@   before call:getOneLinePlusRef#2: assert [c02.record.rows.noins] arg(0) == line && sameslice(arg(1), ref) && arg(2) == false && omitIns
+//@   before call:blockToSeqPair#1: assert [c02.block] sameslice(arg(0).seqpairArray, seqs) && sameslice(arg(0).cigarArray, cigars) && sameslice(arg(0).posArray, positions) && sameslice(arg(1), ref) && len(seqs) == len(group.records)
+//@   before send#2: assert [c02.pair] pair.idx == group.idx && pair.queryname == group.records[0].Name
+//@   before send#4: assert [c02.pair.noins] pair.idx == group.idx && pair.queryname == group.records[0].Name && sameslice(pair.ref, ref)
+//@   ensures len(sent(cPair)) == len(recv(cSR)) && forall(t, 0, len(recv(cSR)), sent(cPair)[t].idx == recv(cSR)[t].idx)
